@@ -434,7 +434,7 @@ func (e *Engine) initUFuncs() {
 func (e *Engine) verifyFunc(fn *ssa.Function, con *Contract) *FnCtx {
 	c := &FnCtx{eng: e, fn: fn, name: e.displayName(fn), con: con, declSet: map[string]bool{}, lits: map[string]string{},
 		ordinals: map[string]int{}, instrOrd: map[ssa.Instruction]map[string]int{}, assumed: map[string]bool{},
-		unsup: map[string]bool{}, budget: 200000, used: map[string]bool{},
+		unsup: map[string]bool{}, budget: 200000, used: map[string]bool{}, sorts: map[string]string{}, constArrs: map[string]string{},
 		entryVals: map[*ssa.Parameter]Val{}, entryFrees: map[*ssa.FreeVar]Val{}}
 	c.checked = con != nil && con.Arith == "checked"
 	if fn.Blocks == nil {
@@ -459,6 +459,7 @@ func (e *Engine) verifyFunc(fn *ssa.Function, con *Contract) *FnCtx {
 	s.assume(app("<", "0", s.alloc))
 	s.alloc0 = s.alloc
 	s.held = "false"
+	s.ghost["exec_count"] = Val{T: intT, S: "0"}
 	for _, p := range fn.Params {
 		v := s.freshVal(p.Type(), "p_"+p.Name())
 		s.env[p] = v
@@ -841,4 +842,72 @@ func (e *Engine) immutableKey(key string) bool {
 		}
 	}
 	return false
+}
+
+// scanCalls implements a closed-world rule over every function of the repository.
+func (e *Engine) scanCalls(rule CWRule) []string {
+	var bad []string
+	allowed := func(k string) bool {
+		for _, a := range rule.Allow {
+			if matchKey(a, k) {
+				return true
+			}
+		}
+		return false
+	}
+	for fn := range e.allFns {
+		if !e.inRepo(fn) {
+			continue
+		}
+		k := e.fnKey(fn)
+		if allowed(k) {
+			continue
+		}
+		for _, b := range fn.Blocks {
+			for _, in := range b.Instrs {
+				var refs []*ssa.Function
+				for _, op := range in.Operands(nil) {
+					if f, ok := (*op).(*ssa.Function); ok {
+						refs = append(refs, f)
+					}
+				}
+				if ci, ok := in.(ssa.CallInstruction); ok && ci.Common().IsInvoke() {
+					// interface method of a forbidden package's type
+					if n, ok := ci.Common().Value.Type().(*types.Named); ok && n.Obj().Pkg() != nil {
+						for _, fp := range rule.ForbidPkgs {
+							if n.Obj().Pkg().Path() == fp {
+								bad = append(bad, fmt.Sprintf("%s calls %s.%s at %s", k, n.Obj().Name(), ci.Common().Method.Name(), e.posOf(in)))
+							}
+						}
+					}
+				}
+				for _, f := range refs {
+					if e.inRepo(f) {
+						continue
+					}
+					pp := ""
+					if p := fnPkg(f); p != nil {
+						pp = p.Path()
+					}
+					full := f.String()
+					hit := false
+					for _, fp := range rule.ForbidPkgs {
+						if pp == fp {
+							hit = true
+						}
+					}
+					for _, ff := range rule.ForbidFns {
+						if full == ff {
+							hit = true
+						}
+					}
+					if hit {
+						bad = append(bad, fmt.Sprintf("%s references %s at %s", k, full, e.posOf(in)))
+					}
+				}
+			}
+		}
+	}
+	sort.Strings(bad)
+	return bad
 }
